@@ -30,14 +30,16 @@ Hypothesis Fmax : is_finite vmax = true.
 Hypothesis Hrange : (B2R vmin < B2R vmax)%R.
 Hypothesis Fspan : is_finite (bsub vmax vmin) = true.
 
-Theorem simple_frame_meets_spec (xs : list b64) :
+(* any width that holds full scale (the one get_dtype chooses, or a data_type override at least as wide) *)
+Theorem simple_codes_meet_spec (w : Z) (xs : list b64) :
+  bits <= w ->
   no_nan xs = true -> sortedB xs = true ->
-  exists w cs, simple_frame ch bits vmin vmax xs = Some (w, map Some cs) /\
-               simple_spec bits vmin vmax xs w cs = true.
+  exists cs, map (simple_code w bits vmin vmax) xs = map Some cs /\
+             simple_spec bits vmin vmax xs w cs = true.
 Proof.
-  intros Hnn Hs.
-  destruct (chain_ok_sound ch Hch bits Hbits) as [w [Ew [Hlt _]]].
-  destruct (chain_fits ch Hch bits w Hbits Ew) as [Hw _].
+  intros Hw Hnn Hs.
+  assert (Hlt : 2 ^ bits - 1 < 2 ^ w).
+  { assert (2 ^ bits <= 2 ^ w) by (apply Z.pow_le_mono_r; lia). lia. }
   assert (Hb0 : 0 <= bits <= 64) by lia.
   assert (W0 : 0 <= w) by lia.
   set (f := simple_code w bits vmin vmax).
@@ -47,9 +49,8 @@ Proof.
   assert (Def : forall x, bis_nan x = false -> f x = Some (g x) /\ 0 <= g x <= 2 ^ bits - 1).
   { intros x Nx. destruct (simple_defined bits vmin vmax Hb0 Fmin Fmax Hrange w x Hw Fspan Nx) as [c [E R]].
     unfold g, f. rewrite E. split; [reflexivity|exact R]. }
-  exists w, (map g xs). split.
-  - unfold simple_frame. rewrite Ew. f_equal. f_equal. apply map_defined.
-    intros x Hx. exists (g x). apply Def, NN, Hx.
+  exists (map g xs). split.
+  - apply map_defined. intros x Hx. exists (g x). apply Def, NN, Hx.
   - unfold simple_spec. repeat (apply andb_true_intro; split).
     + apply Z.ltb_lt. exact Hlt.
     + rewrite map_length. apply Nat.eqb_refl.
@@ -78,6 +79,18 @@ Proof.
         apply (simple_monotone bits vmin vmax Hb0 Fmin Fmax Hrange w a b (g a) (g b) Hw Na Nb H1);
           [apply (Def a Na)|apply (Def b Nb)].
       * apply IH; [exact H2|]. intros x Hx. apply NN. right. exact Hx.
+Qed.
+
+Theorem simple_frame_meets_spec (xs : list b64) :
+  no_nan xs = true -> sortedB xs = true ->
+  exists w cs, simple_frame ch bits vmin vmax xs = Some (w, map Some cs) /\
+               simple_spec bits vmin vmax xs w cs = true.
+Proof.
+  intros Hnn Hs.
+  destruct (chain_ok_sound ch Hch bits Hbits) as [w [Ew _]].
+  destruct (chain_fits ch Hch bits w Hbits Ew) as [Hw _].
+  destruct (simple_codes_meet_spec w xs Hw Hnn Hs) as [cs [E Sp]].
+  exists w, cs. split; [|exact Sp]. unfold simple_frame. rewrite Ew, E. reflexivity.
 Qed.
 
 End SimpleFrame.
